@@ -101,8 +101,8 @@ func feeOfEvent(e map[string]interface{}) string {
 // ---------------------------------------------------------------------------
 
 type c18Result struct {
-	cases    int
-	samples  []string
+	cases   int
+	samples []string
 }
 
 func u64s() []uint64 {
@@ -177,11 +177,11 @@ func staticC18(a *App, m *Mon, seed int64, nRandom int) {
 	}
 	seenR := map[string]string{}
 	type rgen struct {
-		id      tmbytes.HexBytes
-		c       []byte
-		n       uint64
-		h       int64
-		i       int16
+		id tmbytes.HexBytes
+		c  []byte
+		n  uint64
+		h  int64
+		i  int16
 	}
 	var rmade []rgen
 	for _, c := range ctxIDs {
